@@ -1,7 +1,7 @@
 """C01 Traversal is exact: every entry in the depth window, once, nothing else.
 
 Closed systems explored: (tree shape) x (root spelling) x (mindepth, maxdepth window) x
-(default|bfs|dfs) [x readdir order through the shim].  The model is the tree value itself:
+(default|bfs|dfs) x every readdir arrival order (shim) of directories with <= 4 entries.  The model is the tree value itself:
 an entry at nesting level l is a row iff (min in {None,0} or l >= min) and (max in {None,0}
 or l <= max); symlinks are rows and are never descended.
 """
@@ -16,7 +16,7 @@ LEVEL = 'model_checking'
 RULE = ('every tree shape with <= E entries (files / empty dirs, up to isomorphism) plus one-at-a-time '
         'substitution of each leaf by special kinds and adversarial names; x root spellings (omitted, ., ./, '
         'relative, trailing slash, sub/.., absolute, symlinked ancestor, several disjoint roots with own options) '
-        'x every mindepth/maxdepth in {absent,0..D+2} x {default,bfs,dfs}; a case is non-trivial when the '
+        'x every mindepth/maxdepth in {absent,0..D+2} x {default,bfs,dfs}; every readdir permutation of directories with <= 4 entries; a case is non-trivial when the '
         'expected row set is neither empty nor the whole tree, or when the ordering law has >= 2 levels to order')
 MC_NOTE = ('state = one closed configuration (tree, roots, window, mode, readdir order); transitions = '
            'directory-entry events compared with the walk model; every model trace is compared with the real binary')
@@ -27,7 +27,7 @@ BUDGET = {'quick': 50, 'thorough': 1500}
 
 def bounds(tier):
     return {'max_entries': EMAX[tier], 'subst_max_entries': SUBST[tier], 'window': '{absent,0..D+2}^2',
-            'modes': ['default', 'bfs', 'dfs'], 'jail_root_slash': True}
+            'modes': ['default', 'bfs', 'dfs'], 'jail_root_slash': True, 'readdir_permutations': 'all, dirs <= 4 entries'}
 
 
 EMAX = {'quick': 4, 'thorough': 6}
@@ -134,6 +134,16 @@ def groups(tier, seed):
                 name, node = mk()
                 t2 = subst(tree, leaf, name, node)
                 yield {'tree': t2, 'cases': cases_for(t2, tier, special=True), 'layer': 'subst-' + kind}
+    # every readdir arrival order (shim) of directories with <= 4 entries
+    for sh in shapes:
+        tree = core.shape_to_tree(sh)
+        widest = max([len(tree)] + [len(n['c']) for _, n, _ in core.walk_tree(tree) if n['t'] == 'd'])
+        if widest < 2 or widest > 4:
+            continue
+        import math
+        cs = [{'roots': [['dot', a, b, m]], 'rd': k} for k in range(math.factorial(widest)) for m in (None, 'dfs')
+              for (a, b) in ((None, None), (2, None), (None, 2))]
+        yield {'tree': tree, 'cases': cs, 'layer': 'readdir-perm'}
     # the root "/" explored inside a chroot jail
     for sh in core.tree_shapes(3 if tier == 'quick' else 4):
         tree = core.shape_to_tree(sh)
@@ -255,7 +265,10 @@ def eval_case(env, tree, holder, troot, topdirs, case, layer, jail_tree):
         o = core.run_jailed(env, troot, argv)
         base = '/'
     else:
-        o = env.run(argv, cwd=cwd)
+        if case.get('rd') is not None:
+            o = env.run(argv, cwd=cwd, preload=True, env={'FSX_READDIR': 'perm:%d' % case['rd']})
+        else:
+            o = env.run(argv, cwd=cwd)
         base = troot
     full = dict(case, tree=tree)
     res = {'case': full, 'layer': layer, 'trans': sum(len(e) for e in expected) + 1}
